@@ -45,10 +45,17 @@ DEVIATIONS = (  # cfg, invariant that must be violated
 )
 
 
+_SERIAL = [0]
+
+
 def _tlc_retry(ctx, *a, **k):
-    """another check's clean-up (`pkill -f tlc2.TLC`) may terminate our JVM (rc=143 / 137): run again."""
+    """another check's clean-up (`pkill -f tlc2.TLC`) may terminate our JVM (rc=143 / 137): run again.
+    Runs are started concurrently from one process: every run gets its own work directory."""
     from cuqiverif.core import MachineryError
+    from cuqiverif import tlc
     for attempt in range(4):
+        _SERIAL[0] += 1
+        k["workdir"] = os.path.join(tlc.WORK, "c02-%d-%d-%d" % (os.getpid(), _SERIAL[0], int(time.time() * 1000) % 10**7))
         try:
             return ctx.tlc(*a, **k)
         except MachineryError as e:
